@@ -228,6 +228,38 @@ pub fn run(tier: &str) -> i32 {
     }
     let mut acc = res.acc;
 
+    // ---- (1c) a list value against a list of lists: the value is compared as a whole, so it is a single comparable value
+    // and `not x in L` / `x not in L` are PASS exactly when `x in L` is FAIL
+    {
+        let lpool: Vec<V> = vec![V::List(vec![]), V::List(vec![i(1)]), V::List(vec![i(1), i(2)]), V::List(vec![i(2), i(1)]), V::List(vec![i(5), i(6)]), V::List(vec![s("a")]), V::List(vec![V::List(vec![i(1), i(2)])]), V::List(vec![i(1), i(2), i(3)])];
+        let mut n1c = 0u64;
+        for x in &lpool {
+            let doc = V::Map(vec![("x".into(), x.clone())]);
+            let dj = doc.json();
+            for a in &lpool {
+                for b in lpool.iter().map(Some).chain(std::iter::once(None)) {
+                    let mut ll = vec![a.clone()];
+                    if let Some(b) = b {
+                        ll.push(b.clone());
+                    }
+                    let c = Clause::Binary { not: false, some: false, q: vec![key("x")], op: BinOp::In, opneg: false, rhs: Arg::Lit(V::List(ll)), msg: None };
+                    check_clause(&c, &doc, &dj, n1c % 5 == 0, &mut acc);
+                    let st0 = Style::default();
+                    let (t_c, t_nc) = (text_of(&c, &st0), text_of(&set_not(&c, true), &st0));
+                    let (o_c, o_nc) = (lib_run(&t_c, &dj), lib_run(&t_nc, &dj));
+                    acc.traces += 2;
+                    n1c += 1;
+                    match (rule_status(&o_c), rule_status(&o_nc)) {
+                        (Ok(a1), Ok(b1)) if a1 != St::Skip && b1 == swap(a1) => {}
+                        (a1, b1) => acc.violate("prefix-not-does-not-flip:list-in-list-of-lists", format!("`{}` is {:?} and `{}` is {:?} on {}", t_c.trim(), a1, t_nc.trim(), b1, dj), json!({"kind":"lib2","rules":t_c,"rules2":t_nc,"data":dj,"expected":"negation flips PASS/FAIL","observed":format!("{} vs {}", o_c.short(), o_nc.short())})),
+                    }
+                }
+            }
+        }
+        rep.states += n1c;
+        rep.transitions += n1c * 3;
+    }
+
     // ---- (2) query right-hand sides: x op y over value pairs (C13 universe)
     let u = crate::c13::universe(false);
     let mut qcl: Vec<Clause> = vec![];
